@@ -324,6 +324,37 @@ fn roundtrips(cx: &mut Cx, victim: NodeId, h: &Arc<Honest>, art: Art) {
         // the key store on disk: the library's own writer, a path with a HISTORY (nothing there / a
         // longer older document / a shorter one / another key pair written just before), a crash
         // of the role, and the reload of whatever the file then holds
+        // several roles storing different key pairs into the same directory at the same time
+        {
+            let nodes: Vec<zksim_core::sim::NodeId> = (0..4).map(|i| cx.node(&format!("store{i}"))).collect();
+            let tag = format!("{}-{}", std::process::id(), cx.run_index);
+            let seed = cx.run_seed;
+            let steps: Vec<(zksim_core::sim::NodeId, Box<dyn FnOnce() -> Vec<String> + Send>)> = nodes.iter().enumerate().map(|(i, &nd)| {
+                let path = std::env::temp_dir().join(format!("zksim-bbs-keystore-burst-{tag}-{i}.json")).to_string_lossy().to_string();
+                let f: Box<dyn FnOnce() -> Vec<String> + Send> = Box::new(move || {
+                    let mut bad = Vec::new();
+                    for r in 0..60u64 {
+                        let ikm = zksim_core::prng::bytes_for(seed, b"store-burst", i as u64 * 1000 + r, 32);
+                        let wrote = std::panic::catch_unwind(std::panic::AssertUnwindSafe(|| api::keypair_to_file(suite, &ikm, &path)));
+                        match (wrote, api::keypair_from_file(suite, &path)) {
+                            (Ok(Ok(w)), Ok(b)) if w == b => {}
+                            (Err(_), _) => bad.push(format!("round {r}: the write panicked")),
+                            (w, b) => bad.push(format!("round {r}: wrote {:?}, read back {:?}", w.ok().map(|x| x.map(|k| hex::encode(&k.1[..6]))), b.map(|k| hex::encode(&k.1[..6])))),
+                        }
+                    }
+                    let _ = std::fs::remove_file(&path);
+                    bad
+                });
+                (nd, f)
+            }).collect();
+            cx.burst(steps, "write key files concurrently", move |cx, outs| {
+                for (i, st) in outs.into_iter().enumerate() {
+                    cx.eval(&[b"key-file-burst", &[i as u8], tag.as_bytes()], true);
+                    cx.count("fault.concurrent_calls");
+                    if !matches!(&st.out, Ok(b) if b.is_empty()) { cx.violation("C09", "store/concurrent-writers-disturb-each-other".into(), format!("role {i} of 4 writing its own key file 60 times: {:?}", st.out.map(|b| b.into_iter().take(3).collect::<Vec<_>>()))); }
+                }
+            });
+        }
         for history in 0..4u64 {
         let path = std::env::temp_dir().join(format!("zksim-bbs-keystore-{}-{}-{}-{history}.json", std::process::id(), cx.run_index, cx.run_seed & 0xffff)).to_string_lossy().to_string();
         cx.count(&format!("fault.store_file_history_{}", ["fresh_path", "longer_older_document", "shorter_older_document", "rotation_after_another_key"][history as usize]));
